@@ -31,6 +31,8 @@ CLAIMED = {
              ref='DESIGN.md section 4 C10'),
  'C12': dict(text='distance_wei_floyd on a fully symbolic length matrix (support, lengths, ties; one path thanks to masked views) followed by retrieve_shortest_path(s, t): start, end, every hop along an existing connection, hop count = hops[s,t], summed length = SPL[s,t], empty iff unreachable, for all three transforms; navigation_wu with symbolic lengths and symbolic nodal distances: every stored walk, the three path-length matrices, failure = infinite in all three, success ratio.',
              ref='DESIGN.md section 4 C12'),
+ 'C14': dict(text='For every set partition of 3-4 nodes and several injective relabelings (reversed, 7p+3, zero-based, large sparse), each partition-consuming function is run twice in one exploration on the same input (weights symbolic for participation_coef and the modularity evaluators, enumerated matrices where the measure takes logs or square roots) and the outputs are proved equal; partition_distance (symmetry, renaming invariance, zero/unit iff same partition, range) and the ci2ls/ls2ci round trip are enumerated over all pairs of partitions of 4 nodes (no real-valued input there). agreement is not encoded (scipy.sparse).',
+             ref='DESIGN.md section 4 C14'),
  'C15': dict(text='kcore_bu / kcore_bd / score_wu run on symbolic adjacency bits (all graphs of the size in one exploration), symbolic k (Int) / s and weights (Real); z3 proves membership-meets-bound, output = input restricted to the core, reported size, maximality against all 2^n node subsets, and nestedness for k and k+1; peel lists and k-coreness are checked per labelled graph (bits forked) against an independent peeling.',
              ref='DESIGN.md section 4 C15'),
  'C16': dict(text='get_components / number_of_components on a symbolic symmetric real matrix with arbitrary diagonal: one path per labelled graph on <= 5 nodes (all 1024+), same-label iff connected in the Boolean closure, labels 1..m, sizes, agreement with distance_bin / breadthdist / reachdist, and BCTParamError on every path for asymmetric input.',
